@@ -216,65 +216,351 @@ Proof. intros _. reflexivity. Qed.
 Lemma noid_correlated x : correlated x NoId.
 Proof. intros _ cf H. discriminate H. Qed.
 
-Lemma back_channel_status x : status_respected x (accept_back_channel x).
+(* ---- which assertions are sealed ---- *)
+Lemma split_sealed_in fl l a :
+  In a l <-> In a (fst (split_sealed fl l)) \/ In a (snd (split_sealed fl l)).
+Proof.
+  revert fl. induction l as [|b r IH]; intros fl; cbn [split_sealed].
+  - cbn. tauto.
+  - specialize (IH (tl fl)). destruct (hd false fl); cbn [fst snd In]; rewrite IH; tauto.
+Qed.
+
+Lemma split_sealed_plain fl l : forallb negb fl = true -> split_sealed fl l = (l, []).
+Proof.
+  revert fl. induction l as [|b r IH]; intros fl H; cbn [split_sealed]; [reflexivity|].
+  destruct fl as [|f fl']; cbn [hd tl].
+  - rewrite (IH [] eq_refl). reflexivity.
+  - cbn [forallb] in H. apply andb_prop in H as [Hf H]. destruct f; [discriminate|]. rewrite (IH fl' H). reflexivity.
+Qed.
+
+(* ---- every assertion is examined ---- *)
+Lemma one_assertion_shape f x cf a cf' : one_assertion f x cf a = Some cf' -> n_authn a = 1 /\ subject a <> None.
+Proof.
+  unfold one_assertion. destruct (n_authn a =? 1)%nat eqn:En; cbn [negb]; [|discriminate].
+  apply Nat.eqb_eq in En. destruct (subject a); [|discriminate]. intros _. split; [exact En|discriminate].
+Qed.
+
+Lemma all_assertions_shape f x l : forall cf cf', all_assertions f x cf l = Some cf' ->
+  forall a, In a l -> n_authn a = 1 /\ subject a <> None.
+Proof.
+  induction l as [|b r IH]; intros cf cf' H a Ha; [contradiction|]. cbn [all_assertions] in H.
+  destruct (one_assertion f x cf b) as [cf1|] eqn:E; [|discriminate].
+  destruct Ha as [<-|Ha]; [exact (one_assertion_shape _ _ _ _ _ E)|exact (IH _ _ H a Ha)].
+Qed.
+
+(* ---- the Response answers outstanding request i, came_from is set: the rule of b84752ad ---- *)
+Definition count_answers (i : string) (scs : list scd) : nat := length (filter (sc_answers i) scs).
+
+Lemma conf_f_answered x i c scs : answered x = Some i ->
+  forall k, confirmations_f true x (Some c) k scs = Some (Some c, k + count_answers i scs).
+Proof.
+  intros Ha. unfold count_answers. induction scs as [|s r IH]; intros k; cbn [confirmations_f filter length].
+  - f_equal. f_equal. lia.
+  - destruct s as [|d]; cbn [sc_answers]; [apply IH|]. rewrite Ha. cbn [andb].
+    destruct (answers i d); cbn [negb].
+    + destruct d; rewrite IH; cbn [length]; f_equal; f_equal; lia.
+    + apply IH.
+Qed.
+
+(* the assertion passes _assertion when the Response answers outstanding request i (code as it is now):
+   one AuthnStatement, a Subject, every confirmation with data answers i, and there is one *)
+Definition assertion_answers (i : string) (a : assertion_in) : bool :=
+  (n_authn a =? 1)%nat
+  && match subject a with Some scs => sc_all_match i scs && negb (count_answers i scs =? 0)%nat | None => false end.
+
+Lemma one_assertion_answered x i c a : answered x = Some i ->
+  one_assertion V2 x (Some c) a = if assertion_answers i a then Some (Some c) else None.
+Proof.
+  intros Ha. unfold one_assertion, assertion_answers. destruct (n_authn a =? 1)%nat; cbn [negb andb]; [|reflexivity].
+  destruct (subject a) as [scs|]; [|reflexivity]. rewrite Ha. cbn [strict skips andb].
+  destruct (sc_all_match i scs); cbn [negb andb]; [|reflexivity].
+  rewrite (conf_f_answered x i c scs Ha). cbn [Nat.add].
+  destruct (count_answers i scs =? 0)%nat; cbn [negb]; [reflexivity|]. destruct (allow_unsolicited x); reflexivity.
+Qed.
+
+Lemma all_assertions_answered x i c l : answered x = Some i ->
+  all_assertions V2 x (Some c) l = if forallb (assertion_answers i) l then Some (Some c) else None.
+Proof.
+  intros Ha. induction l as [|a r IH]; cbn [all_assertions forallb]; [reflexivity|].
+  rewrite (one_assertion_answered x i c a Ha). destruct (assertion_answers i a); cbn [andb]; [exact IH|reflexivity].
+Qed.
+
+Lemma count_answers_pos i scs : count_answers i scs <> 0 -> existsb (sc_answers i) scs = true.
+Proof.
+  unfold count_answers. induction scs as [|s r IH]; cbn [filter existsb]; [intros H; contradiction H; reflexivity|].
+  destruct (sc_answers i s); [reflexivity|exact IH].
+Qed.
+
+Lemma no_strays_all_match i scs : existsb (sc_strays i) scs = false -> sc_all_match i scs = true.
+Proof.
+  induction scs as [|s r IH]; cbn [existsb sc_all_match]; [reflexivity|]. intros H. apply orb_false_elim in H as [Hs Hr].
+  destruct s as [|d]; [exact (IH Hr)|]. cbn [sc_strays] in Hs. unfold answers in Hs.
+  destruct (opt_eqb String.eqb d (Some i)); [exact (IH Hr)|discriminate].
+Qed.
+
+Lemma count_answers_fine i scs :
+  (forall d, In (Data d) scs -> d = Some i) -> (exists d, In (Data d) scs) -> count_answers i scs <> 0.
+Proof.
+  intros Hall [d Hd]. unfold count_answers. assert (H : In (Data d) (filter (sc_answers i) scs)).
+  { apply filter_In. split; [exact Hd|]. cbn. unfold answers. rewrite (Hall d Hd). cbn. apply String.eqb_refl. }
+  destruct (filter (sc_answers i) scs); [contradiction|discriminate].
+Qed.
+
+Lemma existsb_false_in {A} (f : A -> bool) l a : existsb f l = false -> In a l -> f a = false.
+Proof.
+  intros H Ha. destruct (f a) eqn:E; [|reflexivity].
+  assert (existsb f l = true) by (apply existsb_exists; exists a; auto). congruence.
+Qed.
+
+Lemma check_sc_irt_all i l : check_sc_irt i l <> Some false -> (forall a, In a l -> subject a <> None) ->
+  forall a scs, In a l -> subject a = Some scs -> sc_all_match i scs = true.
+Proof.
+  induction l as [|b r IH]; intros H Hs a scs Ha Hsub; [contradiction|]. cbn [check_sc_irt] in H.
+  destruct (subject b) as [sb|] eqn:Eb; [|exfalso; exact (Hs b (or_introl eq_refl) Eb)].
+  destruct (sc_all_match i sb) eqn:M; [|contradiction H; reflexivity].
+  destruct Ha as [<-|Ha]; [congruence|]. apply (IH H (fun a' Ha' => Hs a' (or_intror Ha')) a scs Ha Hsub).
+Qed.
+
+(* ---- accept_sealed ---- *)
+Lemma accept_sealed_identity_inv f fl x cf :
+  accept_sealed f fl x = Identity cf ->
+  let plain := fst (split_sealed fl (assertions x)) in
+  let enc := snd (split_sealed fl (assertions x)) in
+  exists cf0, loads (with_assertions x plain) = Some cf0 /\ version_ok (version x) = true
+              /\ count_ok plain enc = true /\ all_assertions f x cf0 (plain ++ enc) = Some cf.
+Proof.
+  unfold accept_sealed. cbv zeta.
+  destruct (instance_invalid _); [discriminate|].
+  destruct (loads _) as [cf0|]; [|discriminate].
+  destruct (version_ok (version x)); cbn [negb]; [|discriminate].
+  destruct (String.eqb (status_top x) STATUS_SUCCESS); cbn [negb]; [|discriminate].
+  destruct (count_ok _ _); cbn [negb]; [|discriminate].
+  destruct (all_assertions _ _ _ _) as [cf'|] eqn:E; [|discriminate]. intros [= <-].
+  exists cf0. repeat split; auto.
+Qed.
+
+Lemma sealed_status f fl x : status_respected x (accept_sealed f fl x).
 Proof.
   intros Hne. assert (E : String.eqb (status_top x) STATUS_SUCCESS = false).
   { rewrite success_const. apply String.eqb_neq; exact Hne. }
-  unfold accept_back_channel. destruct (instance_invalid x); [split; [reflexivity|discriminate]|].
+  unfold accept_sealed. cbv zeta. destruct (instance_invalid _); [split; [reflexivity|discriminate]|].
+  destruct (loads _); [|split; [reflexivity|discriminate]].
   destruct (version_ok (version x)); cbn [negb]; [|split; [reflexivity|discriminate]].
   rewrite E. cbn [negb]. split; [reflexivity|]. intros c [= <-]. apply status_class_ok_model.
 Qed.
 
-Lemma back_channel_identity_inv x cf :
-  accept_back_channel x = Identity cf ->
-  cf = None /\ version_ok (version x) = true /\ exists a, assertions x = [a] /\ n_authn a = 1 /\ subject a <> None.
+Lemma count_ok_nonempty fl l : count_ok (fst (split_sealed fl l)) (snd (split_sealed fl l)) = true -> l <> [].
+Proof. intros H ->. cbn in H. discriminate. Qed.
+
+Lemma sealed_shape f fl x : shape_respected x (accept_sealed f fl x).
 Proof.
-  unfold accept_back_channel. destruct (instance_invalid x); [discriminate|].
-  destruct (version_ok (version x)); cbn [negb]; [|discriminate].
-  destruct (String.eqb (status_top x) STATUS_SUCCESS); cbn [negb]; [|discriminate].
-  destruct (assertions x) as [|a [|b r]]; try discriminate.
-  destruct (n_authn a =? 1)%nat eqn:En; cbn [negb]; [|discriminate]. apply Nat.eqb_eq in En.
-  destruct (subject a) as [scs|] eqn:Es; [|discriminate].
-  destruct (count_data scs =? 0)%nat; [discriminate|]. intros [= <-].
-  split; [reflexivity|]. split; [reflexivity|]. exists a. rewrite Es. repeat split; auto. discriminate.
+  intros H. destruct (accept_sealed f fl x) as [cf| |] eqn:A; try reflexivity. exfalso.
+  apply accept_sealed_identity_inv in A as (cf0 & _ & Hv & Hc & Hall). apply version_ok_iff in Hv.
+  destruct H as [H|[H|(b & Hb & H)]].
+  - contradiction.
+  - exact (count_ok_nonempty _ _ Hc H).
+  - assert (Hin : In b (fst (split_sealed fl (assertions x)) ++ snd (split_sealed fl (assertions x)))).
+    { apply in_or_app. apply split_sealed_in. exact Hb. }
+    destruct (all_assertions_shape _ _ _ _ _ Hall b Hin) as [Hn Hs]. destruct H; contradiction.
 Qed.
 
-Lemma back_channel_shape x : shape_respected x (accept_back_channel x).
+Lemma sealed_correlated fl x : correlated x (accept_sealed V2 fl x).
 Proof.
-  intros H. destruct (accept_back_channel x) as [cf| |] eqn:A; try reflexivity. exfalso.
-  apply back_channel_identity_inv in A as (_ & Hv & a & Has & Hn & Hs).
-  apply version_ok_iff in Hv. destruct H as [H|[H|(b & Hb & [H|H])]].
-  - contradiction.
-  - rewrite Has in H. discriminate.
-  - rewrite Has in Hb. destruct Hb as [<-|[]]. contradiction.
-  - rewrite Has in Hb. destruct Hb as [<-|[]]. contradiction.
+  intros Ha cf Hacc.
+  apply accept_sealed_identity_inv in Hacc as (cf0 & Hl & _ & _ & Hall).
+  set (plain := fst (split_sealed fl (assertions x))) in *. set (enc := snd (split_sealed fl (assertions x))) in *.
+  destruct (loads_solicited (with_assertions x plain) cf0 Ha Hl) as (i & ctx & Hi & Hlk & -> & _).
+  cbn [with_assertions irt outstanding assertions] in Hi, Hlk.
+  assert (Hans : answered x = Some i) by (unfold answered; rewrite Hi, Hlk; reflexivity).
+  rewrite (all_assertions_answered x i ctx _ Hans) in Hall.
+  destruct (forallb (assertion_answers i) (plain ++ enc)) eqn:F; [|discriminate]. injection Hall as <-.
+  exists i, ctx. repeat split; auto.
+  intros j Hj. unfold all_sc_irts in Hj. apply in_flat_map in Hj as (a & Ha' & Hj).
+  destruct (subject a) as [scs|] eqn:Es; [|contradiction].
+  rewrite forallb_forall in F. apply (split_sealed_in fl) in Ha'. fold plain enc in Ha'.
+  specialize (F a (in_or_app _ _ _ Ha')). unfold assertion_answers in F. rewrite Es in F.
+  apply andb_prop in F as [_ F]. apply andb_prop in F as [F _].
+  exact (sc_all_match_irts i scs F j Hj).
 Qed.
+
+Lemma sealed_accepted fl x : accepted_when_fine x (accept_sealed V2 fl x).
+Proof.
+  intros i ctx scs (Hi & Hl & Hall) Hv Hs Has Hex. apply version_ok_iff in Hv.
+  assert (Hans : answered x = Some i) by (unfold answered; rewrite Hi, Hl; reflexivity).
+  assert (Hd : forall d, In (Data d) scs -> d = Some i).
+  { intros d Hd. apply (Hall {| n_authn := 1; subject := Some scs |} scs d); [rewrite Has; left; reflexivity|reflexivity|exact Hd]. }
+  assert (Hm : sc_all_match i scs = true) by (apply sc_all_match_iff; exact Hd).
+  assert (Hok : assertion_answers i {| n_authn := 1; subject := Some scs |} = true).
+  { unfold assertion_answers. cbn [n_authn subject Nat.eqb andb]. rewrite Hm. cbn [andb]. apply negb_true_iff, Nat.eqb_neq.
+    exact (count_answers_fine i scs Hd Hex). }
+  unfold accept_sealed. cbv zeta. rewrite Has. cbn [split_sealed]. destruct (hd false fl); cbn [fst snd app].
+  - unfold instance_invalid, loads. cbn [with_assertions assertions irt outstanding allow_unsolicited existsb check_sc_irt].
+    rewrite Hi, Hl, Hv, Hs, success_const, String.eqb_refl. cbn [negb count_ok length Nat.eqb orb].
+    rewrite (all_assertions_answered x i ctx _ Hans). cbn [forallb]. rewrite Hok. reflexivity.
+  - unfold instance_invalid, loads. cbn [with_assertions assertions irt outstanding allow_unsolicited existsb check_sc_irt subject orb].
+    rewrite Hi, Hl, Hm, Hv, Hs, success_const, String.eqb_refl. cbn [negb count_ok length Nat.eqb orb].
+    rewrite (all_assertions_answered x i ctx _ Hans). cbn [forallb]. rewrite Hok. reflexivity.
+Qed.
+
+Lemma sealed_status_raised fl x : status_raised_when_fine x (accept_sealed V2 fl x).
+Proof.
+  intros i ctx (Hi & Hl & Hall) Hv Hs Hsub. apply version_ok_iff in Hv.
+  assert (E : String.eqb (status_top x) STATUS_SUCCESS = false).
+  { rewrite success_const. apply String.eqb_neq; exact Hs. }
+  set (plain := fst (split_sealed fl (assertions x))).
+  assert (Hp : forall a, In a plain -> In a (assertions x)).
+  { intros a Ha. apply (split_sealed_in fl). left. exact Ha. }
+  unfold accept_sealed. cbv zeta. fold plain.
+  rewrite (instance_valid_when_subjects (with_assertions x plain)) by (intros a Ha; apply Hsub, Hp, Ha).
+  rewrite (loads_fine (with_assertions x plain) i ctx).
+  - rewrite Hv, E. cbn [negb]. eexists; reflexivity.
+  - split; [exact Hi|]. split; [exact Hl|]. intros a scs d Ha. apply Hall, Hp, Ha.
+Qed.
+
+(* ---- the back channel with sealed assertions ---- *)
+Lemma back_channel_sealed_status fl x : status_respected x (accept_back_channel_sealed fl x).
+Proof.
+  intros Hne. assert (E : String.eqb (status_top x) STATUS_SUCCESS = false).
+  { rewrite success_const. apply String.eqb_neq; exact Hne. }
+  unfold accept_back_channel_sealed. cbv zeta. destruct (instance_invalid _); [split; [reflexivity|discriminate]|].
+  destruct (version_ok (version x)); cbn [negb]; [|split; [reflexivity|discriminate]].
+  rewrite E. cbn [negb]. split; [reflexivity|]. intros c [= <-]. apply status_class_ok_model.
+Qed.
+
+Lemma back_channel_sealed_identity_inv fl x cf :
+  accept_back_channel_sealed fl x = Identity cf ->
+  cf = None /\ version_ok (version x) = true
+  /\ count_ok (fst (split_sealed fl (assertions x))) (snd (split_sealed fl (assertions x))) = true
+  /\ forallb back_channel_assertion (fst (split_sealed fl (assertions x)) ++ snd (split_sealed fl (assertions x))) = true.
+Proof.
+  unfold accept_back_channel_sealed. cbv zeta. destruct (instance_invalid _); [discriminate|].
+  destruct (version_ok (version x)); cbn [negb]; [|discriminate].
+  destruct (String.eqb (status_top x) STATUS_SUCCESS); cbn [negb]; [|discriminate].
+  destruct (count_ok _ _); cbn [negb]; [|discriminate].
+  destruct (forallb _ _); [|discriminate]. intros [= <-]. repeat split; reflexivity.
+Qed.
+
+Lemma back_channel_sealed_shape fl x : shape_respected x (accept_back_channel_sealed fl x).
+Proof.
+  intros H. destruct (accept_back_channel_sealed fl x) as [cf| |] eqn:A; try reflexivity. exfalso.
+  apply back_channel_sealed_identity_inv in A as (_ & Hv & Hc & Hall). apply version_ok_iff in Hv.
+  destruct H as [H|[H|(b & Hb & H)]].
+  - contradiction.
+  - exact (count_ok_nonempty _ _ Hc H).
+  - rewrite forallb_forall in Hall. specialize (Hall b (in_or_app _ _ _ (proj1 (split_sealed_in fl _ b) Hb))).
+    unfold back_channel_assertion in Hall. apply andb_prop in Hall as [Hn Hs]. apply Nat.eqb_eq in Hn.
+    destruct H as [H|H]; [contradiction|]. rewrite H in Hs. discriminate.
+Qed.
+
+(* ---- in clear nothing changed: the general decision is [accept] / [accept_back_channel], with and without
+   the rule of b84752ad ("for assertions sent in clear this repeats the existing check") ---- *)
+Lemma conf_f_false x scs : forall cf k, confirmations_f false x cf k scs = confirmations x cf k scs.
+Proof.
+  induction scs as [|s r IH]; intros cf k; cbn [confirmations_f confirmations andb]; [reflexivity|].
+  destruct s as [|d]; [apply IH|]. destruct cf as [c|]; [apply IH|]. destruct d as [j|]; [|apply IH].
+  destruct (is_empty j); [apply IH|]. destruct (lookup j (outstanding x)); [apply IH|].
+  destruct (allow_unsolicited x); [apply IH|reflexivity].
+Qed.
+
+Lemma conf_f_clear x scs :
+  match answered x with Some i => sc_all_match i scs = true | None => True end ->
+  forall cf k, confirmations_f true x cf k scs = confirmations x cf k scs.
+Proof.
+  induction scs as [|s r IH]; intros H cf k; cbn [confirmations_f confirmations andb]; [reflexivity|].
+  destruct s as [|d].
+  - apply IH. destruct (answered x); [exact H|exact I].
+  - assert (Hr : match answered x with Some i => sc_all_match i r = true | None => True end).
+    { destruct (answered x); [|exact I]. cbn [sc_all_match] in H. apply andb_prop in H as [_ H]. exact H. }
+    assert (Hd : match answered x with Some i => negb (answers i d) | None => false end = false).
+    { destruct (answered x); [|reflexivity]. cbn [sc_all_match] in H. apply andb_prop in H as [H _].
+      unfold answers. rewrite H. reflexivity. }
+    rewrite Hd. destruct cf as [c|]; [apply IH, Hr|]. destruct d as [j|]; [|apply IH, Hr].
+    destruct (is_empty j); [apply IH, Hr|]. destruct (lookup j (outstanding x)); [apply IH, Hr|].
+    destruct (allow_unsolicited x); [apply IH, Hr|reflexivity].
+Qed.
+
+Lemma loads_all_match x cf a scs : loads x = Some cf -> assertions x = [a] -> subject a = Some scs ->
+  match answered x with Some i => sc_all_match i scs = true | None => True end.
+Proof.
+  unfold loads, answered. intros H Has Hs. destruct (irt x) as [i|]; [|exact I].
+  destruct (lookup i (outstanding x)); [|exact I]. rewrite Has in H. cbn [check_sc_irt] in H. rewrite Hs in H.
+  destruct (sc_all_match i scs); [reflexivity|discriminate].
+Qed.
+
+Lemma accept_sealed_plain f fl x : forallb negb fl = true -> accept_sealed f fl x = accept x.
+Proof.
+  intros Hfl. unfold accept_sealed. cbv zeta. rewrite (split_sealed_plain fl _ Hfl). cbn [fst snd]. rewrite app_nil_r.
+  change (instance_invalid (with_assertions x (assertions x))) with (instance_invalid x).
+  change (loads (with_assertions x (assertions x))) with (loads x).
+  unfold accept. destruct (instance_invalid x); [reflexivity|]. destruct (loads x) as [cf|] eqn:El; [|reflexivity].
+  destruct (version_ok (version x)); cbn [negb]; [|reflexivity].
+  destruct (String.eqb (status_top x) STATUS_SUCCESS); cbn [negb]; [|reflexivity].
+  destruct (assertions x) as [|a [|b r]] eqn:Has; try reflexivity.
+  cbn [count_ok length Nat.eqb orb negb all_assertions]. unfold one_assertion.
+  destruct (n_authn a =? 1)%nat; cbn [negb]; [|reflexivity].
+  destruct (subject a) as [scs|] eqn:Es; [|reflexivity].
+  pose proof (loads_all_match x cf a scs El Has Es) as Hm.
+  assert (E0 : strict f && match answered x with Some i => negb (sc_all_match i scs) | None => false end = false).
+  { destruct (answered x); [rewrite Hm|]; apply andb_false_r. }
+  rewrite E0.
+  assert (E : confirmations_f (skips f) x cf 0 scs = confirmations x cf 0 scs).
+  { destruct f; cbn [skips]; [apply conf_f_false|apply conf_f_clear; exact Hm|apply conf_f_clear; exact Hm]. }
+  rewrite E. destruct (confirmations x cf 0 scs) as [[cf' kept]|]; [|reflexivity].
+  destruct (kept =? 0)%nat; [reflexivity|]. destruct (allow_unsolicited x); [reflexivity|]. destruct cf'; reflexivity.
+Qed.
+
+Lemma accept_back_channel_sealed_plain fl x : forallb negb fl = true -> accept_back_channel_sealed fl x = accept_back_channel x.
+Proof.
+  intros Hfl. unfold accept_back_channel_sealed. cbv zeta. rewrite (split_sealed_plain fl _ Hfl). cbn [fst snd]. rewrite app_nil_r.
+  change (instance_invalid (with_assertions x (assertions x))) with (instance_invalid x).
+  unfold accept_back_channel. destruct (instance_invalid x); [reflexivity|].
+  destruct (version_ok (version x)); cbn [negb]; [|reflexivity].
+  destruct (String.eqb (status_top x) STATUS_SUCCESS); cbn [negb]; [|reflexivity].
+  destruct (assertions x) as [|a [|b r]]; try reflexivity.
+  cbn [count_ok length Nat.eqb orb negb forallb]. unfold back_channel_assertion.
+  destruct (n_authn a =? 1)%nat; cbn [negb andb]; [|reflexivity].
+  destruct (subject a) as [scs|]; [|reflexivity]. destruct (count_data scs =? 0)%nat; reflexivity.
+Qed.
+
+Lemma receive_plain_eq f y : forallb negb (sealed y) = true -> receive_f f y = receive_plain y.
+Proof.
+  intros H. unfold receive_f, receive_plain.
+  rewrite (accept_sealed_plain f _ _ H), (accept_back_channel_sealed_plain _ _ H). reflexivity.
+Qed.
+
+Lemma fix_is_noop_in_clear y : forallb negb (sealed y) = true -> receive y = receive_v0 y /\ receive_v1 y = receive_v0 y.
+Proof. intros H. unfold receive, receive_v1, receive_v0. rewrite !(receive_plain_eq _ y H). split; reflexivity. Qed.
 
 (* the two browser bindings are treated alike, and as an asynchronous hop: the decision on a Response
    that arrived over HTTP-POST or HTTP-Redirect, unaddressed or addressed to that binding's consumer
-   endpoint, is [accept], in which the binding does not occur *)
-Lemma browser_is_accept y : browser (via y) = true -> well_addressed y = true -> receive y = accept (resp y).
-Proof. unfold receive, well_addressed. destruct (via y), (dest y); cbn; congruence. Qed.
+   endpoint, is one in which the binding does not occur; with every assertion in clear it is [accept] *)
+Lemma browser_is_accept_sealed y : browser (via y) = true -> well_addressed y = true ->
+  receive y = accept_sealed V2 (sealed y) (resp y).
+Proof. unfold receive, receive_f, well_addressed. destruct (via y), (dest y); cbn; congruence. Qed.
+
+Lemma browser_is_accept y : browser (via y) = true -> well_addressed y = true -> forallb negb (sealed y) = true ->
+  receive y = accept (resp y).
+Proof. intros Hb Hw Hs. rewrite (browser_is_accept_sealed y Hb Hw). apply accept_sealed_plain, Hs. Qed.
 
 (* addressed elsewhere (incl. the OTHER binding's endpoint): nothing comes out *)
-Lemma browser_misaddressed y : browser (via y) = true -> well_addressed y = false -> receive y = NoId.
-Proof. unfold receive, well_addressed. destruct (via y), (dest y); cbn; congruence. Qed.
+Lemma browser_misaddressed f y : browser (via y) = true -> well_addressed y = false -> receive_f f y = NoId.
+Proof. unfold receive_f, well_addressed. destruct (via y), (dest y); cbn; congruence. Qed.
 
 Lemma c06_delivery_holds y : spec_d y (receive y).
 Proof.
-  destruct (c06_holds (resp y)) as (H1 & H2 & H3 & H4 & H5).
   unfold spec_d. destruct (browser (via y)) eqn:Hb.
   - destruct (well_addressed y) eqn:Hw.
-    + rewrite (browser_is_accept y Hb Hw).
-      split; [intros _; exact H1|]. split; [exact H2|]. split; [exact H3|]. intros _ _. split; [exact H4|exact H5].
-    + rewrite (browser_misaddressed y Hb Hw).
+    + rewrite (browser_is_accept_sealed y Hb Hw).
+      split; [intros _; apply sealed_correlated|]. split; [apply sealed_status|]. split; [apply sealed_shape|].
+      intros _ _. split; [apply sealed_accepted|apply sealed_status_raised].
+    + unfold receive. rewrite (browser_misaddressed V2 y Hb Hw).
       split; [intros _; apply noid_correlated|]. split; [apply noid_status|]. split; [apply noid_shape|].
       intros _ H; discriminate H.
   - split; [intros H; discriminate H|].
     assert (Hs : status_respected (resp y) (receive y) /\ shape_respected (resp y) (receive y)).
-    { unfold receive. destruct (via y); try discriminate Hb; cbn [unravels asynchop negb].
-      - destruct (destination_ok Artifact (dest y)); [split; assumption|split; [apply noid_status|apply noid_shape]].
-      - split; [apply back_channel_status|apply back_channel_shape].
+    { unfold receive, receive_f. destruct (via y); try discriminate Hb; cbn [unravels asynchop negb].
+      - destruct (destination_ok Artifact (dest y)); [split; [apply sealed_status|apply sealed_shape]|split; [apply noid_status|apply noid_shape]].
+      - split; [apply back_channel_sealed_status|apply back_channel_sealed_shape].
       - split; [apply noid_status|apply noid_shape]. }
     destruct Hs as [Hs1 Hs2]. split; [exact Hs1|]. split; [exact Hs2|]. intros H; discriminate H.
 Qed.
@@ -283,20 +569,64 @@ Qed.
    channel the outstanding set is not consulted and no request context is handed back *)
 Lemma back_channel_uncorrelated y cf : via y = Soap -> receive y = Identity cf -> cf = None.
 Proof.
-  unfold receive. intros ->. cbn [unravels asynchop negb]. intros H.
-  apply back_channel_identity_inv in H as [H _]. exact H.
+  unfold receive, receive_f. intros ->. cbn [unravels asynchop negb]. intros H.
+  apply back_channel_sealed_identity_inv in H as [H _]. exact H.
 Qed.
 
 Lemma back_channel_ignores_outstanding y o a :
   via y = Soap ->
-  receive {| via := Soap; dest := dest y;
+  receive {| via := Soap; dest := dest y; sealed := sealed y;
              resp := {| allow_unsolicited := a; outstanding := o; irt := irt (resp y); version := version (resp y);
                         status_top := status_top (resp y); status_second := status_second (resp y);
                         assertions := assertions (resp y) |} |} = receive y.
-Proof. intros Hv. unfold receive. rewrite Hv. reflexivity. Qed.
+Proof. intros Hv. unfold receive, receive_f. rewrite Hv. reflexivity. Qed.
+
+(* ---- findings ---- *)
+Definition stray_sealed : delivery :=
+  {| via := Post; dest := DPost; sealed := [true];
+     resp := {| allow_unsolicited := false; outstanding := [("req-1", "/ctx1"); ("req-2", "/ctx2")]; irt := Some "req-1";
+                version := (2, 0); status_top := SUCCESS; status_second := None;
+                assertions := [{| n_authn := 1; subject := Some [Data (Some "req-2")] |}] |} |}.
+
+Definition partly_stray_sealed : delivery :=
+  {| via := Post; dest := DPost; sealed := [true];
+     resp := {| allow_unsolicited := false; outstanding := [("req-1", "/ctx1"); ("req-2", "/ctx2")]; irt := Some "req-1";
+                version := (2, 0); status_top := SUCCESS; status_second := None;
+                assertions := [{| n_authn := 1; subject := Some [Data (Some "req-2"); Data (Some "req-1")] |}] |} |}.
+
+Lemma stray_not_correlated y :
+  browser (via y) = true -> allow_unsolicited (resp y) = false -> irt (resp y) = Some "req-1" ->
+  In "req-2" (all_sc_irts (resp y)) ->
+  forall v, v = Identity (Some "/ctx1") -> ~ spec_d y v.
+Proof.
+  intros Hb Ha Hi Hin v -> (Hc & _).
+  destruct (Hc Hb Ha (Some "/ctx1") eq_refl) as (i & ctx & Hi' & _ & _ & Hall).
+  rewrite Hi in Hi'. injection Hi' as <-. specialize (Hall "req-2" Hin). discriminate Hall.
+Qed.
+
+(* C06-F2 (fixed by b84752ad): the pinned snapshot accepted an encrypted assertion whose only confirmation answers
+   ANOTHER outstanding request, with the context of the Response's request *)
+Lemma encrypted_correlation_v0_refuted : exists y, partial_match y = false /\ ~ spec_d y (receive_v0 y).
+Proof.
+  exists stray_sealed. split; [reflexivity|].
+  apply (stray_not_correlated stray_sealed eq_refl eq_refl eq_refl (or_introl eq_refl)). vm_compute. reflexivity.
+Qed.
+
+(* C06-F3 (fixed by e76039c1): with b84752ad alone [stray, answering] was still accepted when encrypted *)
+Lemma encrypted_partial_match_v1_refuted : exists y, partial_match y = true /\ ~ spec_d y (receive_v1 y).
+Proof.
+  exists partly_stray_sealed. split; [reflexivity|].
+  apply (stray_not_correlated partly_stray_sealed eq_refl eq_refl eq_refl (or_introl eq_refl)). vm_compute. reflexivity.
+Qed.
+
+(* ... b84752ad did repair the first delivery, and both are refused now *)
+Lemma encrypted_correlation_fixed :
+  receive_v1 stray_sealed = NoId /\ receive stray_sealed = NoId /\ receive partly_stray_sealed = NoId.
+Proof. vm_compute. repeat split; reflexivity. Qed.
 
 (* non-vacuity of the delivery layer: Redirect is correlated like POST; an unknown InResponseTo is refused over both;
-   the other binding's endpoint as Destination is refused; the back channel does not correlate *)
+   the other binding's endpoint as Destination is refused; the back channel does not correlate; an encrypted
+   assertion is correlated like one in clear; one in clear beside an encrypted one passes the count test *)
 Example delivery_example :
   let fine := {| allow_unsolicited := false; outstanding := [("req-1", "/ctx1"); ("req-2", "/ctx2")]; irt := Some "req-1";
                  version := (2, 0); status_top := SUCCESS; status_second := None;
@@ -304,10 +634,16 @@ Example delivery_example :
   let stray := {| allow_unsolicited := false; outstanding := outstanding fine; irt := Some "unknown-9";
                   version := (2, 0); status_top := SUCCESS; status_second := None;
                   assertions := [{| n_authn := 1; subject := Some [Data (Some "unknown-9")] |}] |} in
-  receive {| via := Redirect; dest := DRedirect; resp := fine |} = Identity (Some "/ctx1")
-  /\ receive {| via := Post; dest := DPost; resp := fine |} = Identity (Some "/ctx1")
-  /\ receive {| via := Redirect; dest := DRedirect; resp := stray |} = NoId
-  /\ receive {| via := Post; dest := DAbsent; resp := stray |} = NoId
-  /\ receive {| via := Redirect; dest := DPost; resp := fine |} = NoId
-  /\ receive {| via := Soap; dest := DPost; resp := stray |} = Identity None.
+  let two := with_assertions fine (assertions fine ++ assertions fine) in
+  receive {| via := Redirect; dest := DRedirect; sealed := []; resp := fine |} = Identity (Some "/ctx1")
+  /\ receive {| via := Post; dest := DPost; sealed := []; resp := fine |} = Identity (Some "/ctx1")
+  /\ receive {| via := Redirect; dest := DRedirect; sealed := []; resp := stray |} = NoId
+  /\ receive {| via := Post; dest := DAbsent; sealed := []; resp := stray |} = NoId
+  /\ receive {| via := Redirect; dest := DPost; sealed := []; resp := fine |} = NoId
+  /\ receive {| via := Soap; dest := DPost; sealed := []; resp := stray |} = Identity None
+  /\ receive {| via := Post; dest := DPost; sealed := [true]; resp := fine |} = Identity (Some "/ctx1")
+  /\ receive {| via := Post; dest := DPost; sealed := [true]; resp := stray |} = NoId
+  /\ receive {| via := Post; dest := DPost; sealed := [false; true]; resp := two |} = Identity (Some "/ctx1")
+  /\ receive {| via := Post; dest := DPost; sealed := []; resp := two |} = NoId
+  /\ receive {| via := Post; dest := DPost; sealed := [true; true]; resp := two |} = NoId.
 Proof. vm_compute. repeat split; reflexivity. Qed.
